@@ -57,7 +57,7 @@ import (
 type clkIndex struct {
 	funcs        []*ssa.Function
 	fieldStores  map[*types.Var][]*ssa.Store
-	derefStores  map[*types.Var][]*ssa.Store     // *x.f = v
+	derefStores  map[*types.Var][]*ssa.Store      // *x.f = v
 	elemStores   map[*types.Var][]ssa.Instruction // x.f[i] = v (Store) / x.f[k] = v (MapUpdate)
 	globalStores map[*ssa.Global][]*ssa.Store
 	sites        map[*ssa.Function][]ssa.CallInstruction
